@@ -127,6 +127,8 @@ BUDGET = {"quick": 90, "thorough": 480}
 # only with an intermediate combine level observed in the graph (kw_tree), the split_out shuffle on >= 5 partitions
 # (kw_shuffle) or axis=1 on >= 5 partitions (kw_rowwise), and only where the pandas default answers differently
 _KW_FLOORS_QUICK = {
+    "kw_tree:cov:min_periods": 23, "kw_tree:corr:min_periods": 20, "covcorr_pair_with_2_joint_rows": 35,
+    "covcorr_pair_with_2_joint_rows&min_periods": 27,
     "kw_rowwise:all:axis": 6, "kw_rowwise:any:axis": 6, "kw_rowwise:count:axis": 9,
     "kw_rowwise:idxmax:axis": 6, "kw_rowwise:idxmin:axis": 4, "kw_rowwise:max:axis": 8,
     "kw_rowwise:mean:axis": 8, "kw_rowwise:min:axis": 10, "kw_rowwise:nunique:axis": 10,
